@@ -37,6 +37,7 @@ import (
 	"sort"
 	"strconv"
 	"strings"
+	"time"
 
 	"verifharness/hx"
 
@@ -52,8 +53,10 @@ var errGxRejected = errors.New("goonly: rejected by the validator's rule")
 // recursive traversal".  mapEncode does not call the validator registered for a self-serialising type when the
 // value sits in an interface (struct field, slice element, map value of an interface type): with WithValidation on
 // both sides JSONEncode then accepts a value whose document JSONDecode refuses.  Observed on the unchanged tree;
-// while this is false the stream expects what the code does and only counts the occurrences
-// (goonly:deviation:*); true makes it an oracle failure (goonly-validator / encode / skipped-...).
+// while this is false the stream first looks which of the two the code does (gxProbeValidatorSkip: one fixed
+// value), expects that of every case and counts the occurrences (goonly:deviation:*); true makes the documented
+// behaviour the expectation (the skip is then an oracle failure goonly-validator / encode / call-count or
+// accepted-rejected-node).
 const gxReportValidatorSkip = false
 
 type gxRules struct {
@@ -863,8 +866,8 @@ func (c *gxCase) checkDecode(r *hx.Run, e *gxExpect, js []byte, docMode, validat
 	switch {
 	case d.failed && !wantFail:
 		oracle := "goonly-roundtrip"
-		if validate && !docMode {
-			oracle = c.validationOracle(e) // the unvalidating decoder is checked on the same document
+		if validate && !docMode && !c.decode(js, false, false).failed {
+			oracle = c.validationOracle(e) // the document is fine for the unvalidating decoder: validation objects
 		}
 		c.fail(r, oracle, side, "unexpected-failure", validate, tag+" fails: "+d.why)
 		r.Count("goonly:dec:unexpected-failure")
@@ -906,7 +909,7 @@ func (c *gxCase) run(r *hx.Run) {
 	c.walk(c.val, e)
 	// what the encoder is expected to do: as documented, or (gxReportValidatorSkip = false) as the code does
 	encNodes, encRejected := e.vnodes, e.rejected
-	if !gxReportValidatorSkip {
+	if !gxReportValidatorSkip && gxValidatorSkip {
 		encNodes, encRejected = map[reflect.Type]int{}, e.rejectedE
 		for t, n := range e.vnodes {
 			encNodes[t] = n - e.vskipped[t]
@@ -1031,6 +1034,9 @@ func goOnly(r *hx.Run, n int) {
 		return // handled by goOnlyReplay
 	}
 	goOnlyProbes(r)
+	if os.Getenv("C01B_GOONLY_TIME") != "" {
+		defer func(t0 time.Time) { fmt.Fprintln(os.Stderr, "goonly stream:", time.Since(t0)) }(time.Now())
+	}
 	base, _ := r.Rng.Fork()
 	for i := 0; i < n; i++ {
 		for _, fam := range gxFamilies {
@@ -1053,6 +1059,7 @@ func goOnlyReplay(r *hx.Run) bool {
 		panic("C01B_GOONLY=<family>:<sub-seed>")
 	}
 	r.Case(sub)
+	gxValidatorSkip = gxProbeValidatorSkip()
 	c := gxBuild(sp[0], sub)
 	fmt.Fprintln(os.Stderr, c.describe(false))
 	c.run(r)
@@ -1176,7 +1183,25 @@ type gxProbeInlinedOmitempty struct {
 	Val  gxInlVal `serix:",inlined,omitempty"`
 }
 
+// gxValidatorSkip: what the calibrating probe observed (see gxReportValidatorSkip) - false once mapEncode hands a
+// self-serialising value held in an interface to the validator of its type.
+var gxValidatorSkip bool
+
+func gxProbeValidatorSkip() bool {
+	c := gxNewCase("probe", 0)
+	gxReg(c, true, func(x gxTagged) bool { return false })
+	v := &gxInlTop{Body: &gxInlBody{}, GxNode: gxLeaf{}, Tail: gxTagged{V: "v"}}
+	var err error
+	if p := hx.Safely(func() { _, err = c.api.JSONEncode(context.Background(), v, serix.WithValidation()) }); p != "" || err != nil {
+		return false // no calibration possible: expect what is documented
+	}
+
+	return c.vtotal() == 0
+}
+
 func goOnlyProbes(r *hx.Run) {
+	gxValidatorSkip = gxProbeValidatorSkip()
+	r.Count("goonly:probe:validator-of-self-serialising-value-in-interface:" + map[bool]string{true: "skipped-by-encoder", false: "called-by-encoder"}[gxValidatorSkip])
 	probe := func(name string, v any) {
 		api := serix.NewAPI()
 		ctx := context.Background()
